@@ -125,6 +125,27 @@ def body(case, acc):
                     return Violation("C10:flat-lost-complete-frame", f"{integ}/{srckind} cut at {k}/{len(data)}: {complete} "
                                      f"frames fully delivered ({need} items) but only {len(items)} yielded "
                                      f"({type(exc).__name__ if exc else 'clean end'})", {**case, "k": k})
+        # rdflib Graph.parse / Dataset.parse into the caller's own store: after the error the store must hold at least
+        # the statements of the completely delivered frames, and nothing the stream does not denote
+        if rdflib_ok and (k % 3 == 0 or k in ends):
+            import rdflib
+
+            phys_num = (ref.options or {}).get("physical_type", 1)
+            sink = rdflib.Graph() if phys_num == 1 else rdflib.Dataset()
+            try:
+                sink.parse(data=cut, format="jelly")
+            except Exception:  # noqa: BLE001
+                pass
+            held = {T.norm_stmt(x) for x in pyj.sink_events(sink, "rdflib")}
+            denoted = [tuple(tuple(t) for t in e) for e in full["rdflib"] if e[0] != "prefix"]
+            if not held <= set(denoted):
+                return Violation("C10:graph-holds-foreign-statement", f"cut at {k}/{len(data)}: the caller's graph holds a statement "
+                                 f"the stream does not denote", {**case, "k": k})
+            must = set(denoted[:need_stmts])
+            if not must <= held:
+                return Violation("C10:graph-lost-complete-frame", f"cut at {k}/{len(data)}: {complete} frames fully delivered "
+                                 f"({len(must)} distinct statements) but the caller's graph holds only {len(held & must)} of them",
+                                 {**case, "k": k})
         # grouped (generic)
         for srckind in ("bytesio", "raw"):
             source = io.BytesIO(cut) if srckind == "bytesio" else iosim.DribbleRaw(cut, case["schedule"])
